@@ -86,13 +86,13 @@ def parse_output(text):
     return res
 
 
-def run_runner(ctx, bins, args, label, timeout=3600, env=None, race_label=None):
+def run_runner(ctx, bins, args, label, timeout=3600, env=None, race_label=None, reap=True):
     """Runs the real connectconformance binary; returns (rc, timed_out, text)."""
     e = {"GORACE": "halt_on_error=0 log_path=%s" % os.path.join(ctx.race_dir, race_label or label)}
     if env:
         e.update(env)
     argv = [bins["connectconformance"]] + list(args)
-    rc, to, path = ctx.run(argv, REPO, timeout, label + ".log", e)
+    rc, to, path = ctx.run(argv, REPO, timeout, label + ".log", e, reap=reap)
     text = open(path, errors="replace").read()
     return rc, to, text
 
